@@ -11,7 +11,7 @@ Definition run_c03 (k : Z) (args : list (list Z)) : list (list Z) :=
   else if k =? 302 then [zs (idxs_seq ds (ns (arg 1 args)))]
   else if k =? 303 then [zs (order_sort ds)]
   else if k =? 304 then [zs (loop_indices ds)]
-  else if k =? 305 then [[zb (isvalid ds)]]
+  else if k =? 305 then [[zb (isvalid ds)]; [Z.of_nat (snd (rank ds))]]      (* validity and the node count (cells that reach a pit) *)
   else if k =? 306 then let d' := repair_loops ds in [net_out d'; zs (filter (fun i => (nth i d' (length d') =? i)%nat) (seq 0 (length d')))]
   else if k =? 307 then [upstream_count ds (mask_opt (argz 1 args) (arg 2 args))]
   else if k =? 308 then [[zb (check_topo ds (ns (arg 1 args))); zb (check_complete ds (ns (arg 1 args)))]]
